@@ -26,6 +26,7 @@ const (
 	PCell                   // cell holding a non-struct value (or whole struct by ref when Elem is struct)
 	PArr                    // pointer to an array object (backing array ref)
 	POpaque                 // materialised interior pointer: nothing known
+	PStrByte                // byte of a string reached through unsafe.StringData / unsafe.Add (read only)
 )
 
 type Place struct {
@@ -107,6 +108,9 @@ type FnExec struct {
 	frameOK  bool
 	nalloc   int
 	strConst map[string]string
+	hashStated map[int]bool // type tags for which (hashable tag) has been stated
+	atcallHit map[int]bool
+	callOrd   map[ssa.Instruction]int
 	outside  []string // reasons the function leaves the supported subset
 	notes    []string
 	entryGh  map[string]string
@@ -121,12 +125,14 @@ type FnExec struct {
 	rely       map[string]func(before, after string) string
 	hookGhost  string // name of the ghost updated by the family's onCall hook
 	private    []privateObj // fresh objects that never escape: unchanged by any call
+	noFrame    map[string]bool // private objects written inside the loop whose head is being entered
 }
 
 // privateObj: an object allocated by this activation whose reference is never passed on or stored.
 type privateObj struct {
 	ref   string
 	heaps []string
+	def   ssa.Value // the allocation (its referrers are the only instructions that can write the object)
 }
 
 type deferredCall struct {
@@ -443,8 +449,12 @@ func (fx *FnExec) havocHeap(name string) {
 	n := fx.freshName(name + "_h")
 	fx.emit("(declare-const %s %s)", n, sort)
 	fx.cur.heap[name] = n
-	// objects that never escaped this activation cannot be written by anybody else
+	// objects that never escaped this activation cannot be written by anybody else (at a loop head
+	// this does not hold for the ones the loop body itself writes: noFrame)
 	for _, po := range fx.private {
+		if fx.noFrame[po.ref] {
+			continue
+		}
 		for _, h := range po.heaps {
 			if h == name {
 				fx.assumeGlobal("(= (select " + n + " " + po.ref + ") (select " + before + " " + po.ref + "))")
@@ -502,6 +512,8 @@ func (fx *FnExec) placeOf(v Val) *Place {
 
 func (fx *FnExec) load(p *Place) string {
 	switch p.Kind {
+	case PStrByte:
+		return "(sat " + p.Ref + " " + p.Idx + ")"
 	case PField:
 		if p.Base != nil {
 			base := fx.load(p.Base)
@@ -809,6 +821,10 @@ func (fx *FnExec) loaded(t types.Type, term string) string {
 		case *types.Pointer, *types.Map:
 			for _, po := range fx.private {
 				fx.assume("(distinct " + n + " " + po.ref + ")")
+			}
+		case *types.Slice:
+			for _, po := range fx.private {
+				fx.assume("(distinct (s.arr " + n + ") " + po.ref + ")")
 			}
 		}
 	}
